@@ -17,6 +17,7 @@ import TnVerif.Model.OrthSweep
 import TnVerif.Generated
 import TnVerif.Model.Maxvol
 import TnVerif.Model.TTMatrix
+import TnVerif.Model.Cross
 /-
   Line-protocol driver (DESIGN §2.6).  One request per line on stdin, one answer per line on
   stdout.  Tokens are separated by blanks; numbers are integers or `p/q`.
@@ -395,6 +396,17 @@ def run (cmd : String) : PM String := do
         else break
       let fin := (List.range r).map s.idx
       return "ok " ++ showNats fin ++ " swaps " ++ showNats (swaps.toList.flatMap fun p => [p.1, p.2])
+  | "cross_rsets" => do
+      -- levels j = 1 … N-1 of the right-to-left sweep: count R_j, R_{j+1}, then the R_j flat pivot positions
+      let L ← pNat
+      let mut lv : Array (Nat × Nat × (Nat → Nat)) := #[]
+      for _ in [0:L] do
+        let cnt ← pNat; let rr ← pNat
+        let mut a : Array Nat := #[]
+        for _ in [0:cnt] do a := a.push (← pNat)
+        lv := lv.push (cnt, rr, fun k => a.getD k 0)
+      let all := rsetsAll lv.toList
+      return "ok" ++ String.join (all.map fun rows => " L " ++ s!"{rows.length}" ++ String.join (rows.map fun r => " " ++ showNats r))
   | "kron_ok" => do
       let ranks ← pNatList; let ind ← pNatList; let outd ← pNatList
       return "ok B " ++ (if kronOK ranks ind outd then "1" else "0")
